@@ -3,6 +3,7 @@ import ast
 
 from ..loader import ClassInfo, AnalysisError, walk_no_nested, norm, is_self_attr, unparse
 from .. import q
+from ..cfg import guarded_by
 
 STORE = "_listeners"
 CACHE = "_sorted"
@@ -284,6 +285,16 @@ def run(ctx):
             r.ok("%s: %s after fresh store" % (sort.short, norm(c)))
         else:
             r.fail(sort, c, norm(c), "the sorted list is appended to without being reset first: listeners would be called twice")
+    # a cache entry is never the store's own bucket list (a listener registered during a dispatch would join the running dispatch,
+    # and lists handed out by get_listeners would grow later)
+    for n in walk_no_nested(sort.node):
+        if isinstance(n, ast.Assign):
+            for t in n.targets:
+                elts = t.elts if isinstance(t, (ast.Tuple, ast.List)) else []
+                for e_ in elts:
+                    if isinstance(e_, ast.Subscript) and is_self_attr(e_.value, CACHE):
+                        r.fail(sort, n, norm(n), "the cache entry is bound by unpacking (%s) to an object that already exists - the store's own bucket list - instead of a list built for the cache: "
+                               "a listener registered by a listener during a dispatch takes part in the running dispatch" % norm(n))
     # ... and every stored listener is carried over: the append is on every path of its iteration (no filter)
     for c in appends:
         loops = [a for a in _anc(c) if isinstance(a, (ast.For, ast.While))]
@@ -500,6 +511,48 @@ def run(ctx):
                 r.ok("%s: %s asked at dispatch time, not stored" % (fi.short, norm(c)[:60]))
     if n_q == 0:
         r.vacuous_ok = True
+
+    # ---------------------------------------------------------------- R11
+    r = ctx.rule("C12-R11", "SIBLING", "'stops after the first listener that stops propagation' has one meaning for every event: no event class overrides the "
+                 "propagation test or its setter (marking an event handled is not stopping it)", reference=3)
+    evb = ctx.cls("clikit.api.event.event.Event")
+    prop_methods = [nm for nm in evb.methods if "propagation" in nm]
+    ctx.require(prop_methods, "Event has no propagation methods any more")
+    for c in sorted(p.subclasses(evb, strict=True), key=lambda k: k.qualname):
+        over = [nm for nm in prop_methods if nm in c.methods]
+        if over:
+            m_ = c.methods[over[0]]
+            r.fail(m_, m_.node, "%s overrides %s" % (c.name, ", ".join(over)), "%s re-defines %s: for this event the dispatch loop stops (or goes on) for another reason than a listener calling "
+                   "stop_propagation() - later listeners of the event are cut off" % (c.name, ", ".join(over)))
+        else:
+            r.ok("%s inherits %s" % (c.name, ", ".join(sorted(prop_methods))))
+
+    # ---------------------------------------------------------------- R12
+    r = ctx.rule("C12-R12", "READONLY", "queries answer from what was registered and leave no trace: the listener store is a plain dict (reading a missing key cannot create it) and "
+                 "get_listener_priority returns a priority only on a path where the listener was found in that bucket", reference=3)
+    init_ = methods["__init__"]
+    store_init = [n.value for n in walk_no_nested(init_.node) if isinstance(n, ast.Assign) and any(is_self_attr(t, STORE) for t in n.targets)]
+    plain = store_init and all(isinstance(v, ast.Dict) or (isinstance(v, ast.Call) and isinstance(v.func, ast.Name) and v.func.id in ("dict", "OrderedDict") and not v.args) for v in store_init)
+    if plain:
+        r.ok("EventDispatcher.%s is a plain dict" % STORE)
+    else:
+        r.fail(init_, init_.node, "store is %s" % (norm(store_init[0]) if store_init else "?"), "the listener store is created as `%s`: merely asking has_listeners(x) / get_listener_priority(x, ..) for an "
+               "event nobody registered creates an entry for it, which get_listeners() then reports" % (norm(store_init[0]) if store_init else "?"))
+    glp = methods.get("get_listener_priority")
+    if glp is not None:
+        gcfg_ = ctx.cfg(glp)
+        lprm = [a for a in glp.params if "listener" in a] or glp.params[-1:]
+        for ret in q.returns(glp):
+            if ret.value is None or (isinstance(ret.value, ast.Constant) and ret.value.value is None):
+                continue
+            found = None
+            for rn in gcfg_.nodes_of(ret):
+                found = guarded_by(gcfg_, rn, lambda e: isinstance(e, ast.Compare) and len(e.ops) == 1 and isinstance(e.ops[0], (ast.Eq, ast.Is, ast.In)) and any(isinstance(x, ast.Name) and x.id in lprm for x in walk_no_nested(e)), polarity=True, kill_names=lambda e: set())
+            if found is not None:
+                r.ok("%s: %s only when the listener was found" % (glp.short, norm(ret)))
+            else:
+                r.fail(glp, ret, norm(ret) + " without a match", "%s can return a priority on a path where the listener was not found (the loop ran out): a callable that is not registered for the "
+                       "event gets the priority of the last bucket instead of None" % glp.short)
 
     # ---------------------------------------------------------------- R10
     r = ctx.rule("C12-R10", "NULL", "every event object can answer the dispatch loop's propagation test: each event class initialises, on every path of "
